@@ -26,9 +26,12 @@ def make_data(n):
 
 def observe(setup, expr, n):
     """run one call with a recording progress callback; returns (outcome, exception, notifications, bad notifications)
-    outcome: 'completed' | 'refused-up-front' | 'internal-error-before-progress' | 'aborted-after-progress' | 'setup-failed'"""
+    outcome: 'completed' | 'refused-up-front' (TypeError/ValueError/library error before the first notification) |
+    'refused-by-library-error' (FittingError, ZHITError, DRTError, KramersKronigError or an ImpedanceError subclass at any time: the
+    documented way to report an infeasible numerical problem) | 'internal-error-before-progress' | 'aborted-after-progress' | 'setup-failed'"""
     import pyimpspec.exceptions as E
     library = tuple(c for c in vars(E).values() if isinstance(c, type) and issubclass(c, Exception))
+    own = (E.FittingError, E.ZHITError, E.DRTError, E.KramersKronigError, E.ImpedanceError)
     notes, bad = [], []
     def cb(*args, **kwargs):
         notes.append(kwargs)
@@ -50,7 +53,7 @@ def observe(setup, expr, n):
     except Exception as ex:
         if len(notes) == 0:
             return ("refused-up-front" if isinstance(ex, (TypeError, ValueError) + library) else "internal-error-before-progress"), ex, 0, bad
-        return "aborted-after-progress", ex, len(notes), bad
+        return ("refused-by-library-error" if isinstance(ex, own) else "aborted-after-progress"), ex, len(notes), bad
     finally:
         pyimpspec.progress.unregister(handle)
 '''.replace("TRUE_CDC", repr(TRUE_CDC))
@@ -157,7 +160,7 @@ def culprit(ex):
 def repro_src(setup, expr, n):
     return ("import numpy as np, pyimpspec\nfrom pyimpspec import parse_cdc\nimport warnings; warnings.filterwarnings('ignore')\n" + HARNESS_SRC +
             f"\noutcome, ex, notifications, bad = observe({setup!r}, {expr!r}, {n})\nprint(outcome, type(ex).__name__ if ex else '', ex if ex else '', notifications, bad)\n"
-            "assert outcome in ('completed', 'refused-up-front', 'setup-failed') and not bad, (outcome, ex, bad)\n")
+            "assert outcome in ('completed', 'refused-up-front', 'refused-by-library-error', 'setup-failed') and not bad, (outcome, ex, bad)\n")
 
 
 def run_case(arg):
@@ -174,16 +177,15 @@ def run_case(arg):
     entry = c["entry"]
     rec = {"key": (entry, size_class, c["setup"], c["expr"]), "entry": entry, "size": size_class, "outcome": outcome, "fails": [], "trivial": c["trivial"], "exc": None, "elapsed": round(elapsed, 2)}
     where = f"{entry} on {n} points ({size_class}); options {c['opts']}; call: {c['expr']}" + (f" after setup: {c['setup']}" if c["setup"] else "")
-    prefix = entry + (":too-few-points" if size_class.startswith("below-min") else "")
     if ex is not None:
         et, fn = type(ex).__name__, culprit(ex)
         rec["exc"] = f"{et}@{fn}"
         if outcome == "setup-failed":
             rec["trivial"] = True
-        elif outcome != "refused-up-front":
+        elif outcome in ("internal-error-before-progress", "aborted-after-progress"):
             needs_window_table = not ("weights=np.ones(n)" in c["expr"] and "window='auto'" not in c["expr"] and "window=" in c["expr"])
             zhit_windows = entry == "perform_zhit" and len(zw._WINDOW_FUNCTIONS) == 0 and needs_window_table
-            key = f"zhit:no-window-functions:{et}" if zhit_windows else f"{prefix}:{outcome}:{et}@{fn}"
+            key = f"zhit:no-window-functions:{et}" if zhit_windows else f"{entry}:{outcome}:{et}@{fn}"
             what = (f"{where}: raised {et}: {str(ex)[:300]} in {fn} after {notes} progress notification(s) - neither refused by argument validation nor completed"
                     + ("; zhit.weights._WINDOW_FUNCTIONS is empty under the installed scipy" if zhit_windows else ""))
             rec["fails"].append((key, fn, what, repro_src(c["setup"], c["expr"], n)))
@@ -204,17 +206,16 @@ def main(a):
     spaces = {"kk": kk_cases(thorough), "zhit": zhit_cases(thorough), "drt": drt_cases(thorough), "fit": fit_cases(thorough)}
     # quick tier: a covering subsample (every value of every option occurs; the full product is the thorough tier)
     fraction = {"kk": 1.0 if thorough else 0.07, "zhit": 1.0 if thorough else 0.2, "drt": 1.0 if thorough else 0.5, "fit": 1.0 if thorough else 0.5}
-    jobs, nmin, probes = [], {}, []
-    for entry, (setup, expr) in REFERENCE.items():
-        nmin[entry] = None
+    jobs, nmin, below = [], {}, {}
+    for entry, (setup, expr) in REFERENCE.items():      # smallest accepted size = smallest n for which the reference call completes;
+        nmin[entry], below[entry] = None, {}             # smaller sizes are outside the property's quantifier: recorded, never failed
         for n in range(1, 13):
             with np.errstate(all="ignore"):
-                outcome = env["observe"](setup, expr, n)[0]
+                outcome, ex, notes, _ = env["observe"](setup, expr, n)
             if outcome == "completed":
                 nmin[entry] = n
                 break
-            probes.append((case(entry, expr, {"reference call": True}, setup=setup, trivial=(outcome == "refused-up-front")), f"below-min n={n}", n))
-    jobs += probes
+            below[entry][f"n={n}"] = f"{outcome}: {type(ex).__name__}@{culprit(ex)}: {str(ex)[:100]} (after {notes} notification(s))"
     for name, cases in spaces.items():
         for c in cases:
             c["trivial"] = c["entry"] == "calculate_drt[tr-rbf]" and nmin[c["entry"]] is None     # refused for lack of a solver: says nothing about the options
@@ -243,15 +244,17 @@ def main(a):
     res = Result("C18", f"option cross products ({'full' if thorough else 'covering subsample'}): KK 7 tests x {{Z,Y,auto}} x C x L x {{num_RC=3|auto}} x num_F_ext_evaluations "
                         f"{'{-20,-10,0,5,10,20}' if thorough else '{-10,0,10}'} x rapid ({len(spaces['kk'])}; cnls with max_nfev=50, and on 40 points only a seeded handful of the cnls x automatic num_RC x extension-search combinations); Z-HIT 6 smoothing x 5 interpolation x {{Z,Y}} x 5 weight/window "
                         f"choices ({len(spaces['zhit'])}); DRT tr-nnls/tr-rbf/bht/lm/mrq-fit option products ({len(spaces['drt'])}); fit 11 methods x 6 weights "
-                        f"({len(spaces['fit'])}); each on the smallest accepted size {nmin}, 12 and 40 points, plus the reference call on every smaller size",
+                        f"({len(spaces['fit'])}); each on the smallest accepted size {nmin}, 12 and 40 points",
                  "enumeration of the product of documented option values per entry point; one case = one call with a recording progress callback; distinct = distinct "
-                 "(entry point, size, call text); a case refused for lack of an optional solver (tr-rbf) is counted trivial")
+                 "(entry point, size, call text); accepted outcomes: completed, refused by argument validation before the first notification, or one of the library's own "
+                 "error types (FittingError, ZHITError, DRTError, KramersKronigError, ImpedanceError subclasses) at any time; a case refused for lack of an optional "
+                 "solver (tr-rbf) is counted trivial")
     table, slow = {}, []
     for rec in pmap_isolated(run_case, jobs):      # a fresh process per call, like the repro scripts
         res.case(rec["key"], nontrivial=not rec["trivial"], sample={"case": str(rec["key"])[:300], "outcome": rec["outcome"], "exception": rec["exc"]})
         for fl in rec["fails"]:
             res.fail(*fl)
-        t = table.setdefault(rec["entry"], {"completed": 0, "refused-up-front": 0, "internal-error-before-progress": 0, "aborted-after-progress": 0, "setup-failed": 0, "exceptions": {}})
+        t = table.setdefault(rec["entry"], {"completed": 0, "refused-up-front": 0, "refused-by-library-error": 0, "internal-error-before-progress": 0, "aborted-after-progress": 0, "setup-failed": 0, "exceptions": {}})
         t[rec["outcome"]] += 1
         slow.append((rec["elapsed"], rec["size"], rec["key"][3]))
         if rec["exc"]:
@@ -259,6 +262,9 @@ def main(a):
             t["exceptions"][k] = t["exceptions"].get(k, 0) + 1
     for entry, t in sorted(table.items()):
         res.part(f"outcomes:{entry}", smallest_accepted_size=nmin.get(entry), **t)
+    res.part("smallest_accepted", rule="smallest n (1..12) for which the reference call completes; what the reference call does on smaller sizes is recorded only",
+             sizes=nmin, reference_calls={e: v[1] for e, v in REFERENCE.items()}, below=below)
+    res.part("refused_by_library_error", **{e: {k.split(":", 1)[1]: v for k, v in t["exceptions"].items() if k.startswith("refused-by-library-error:")} for e, t in sorted(table.items())})
     res.part("slowest-calls", calls=[f"{e:.1f} s: {sz}: {ex}" for e, sz, ex in sorted(slow, reverse=True)[:8]], total_call_seconds=round(sum(e for e, _, _ in slow), 1))
     return res
 
